@@ -193,6 +193,22 @@ func c13One(env *Env, m *wvlib.Model, c *C13Case) {
 	if err := rctx.ReadMessage(&pwr.SyncOp{}); errors.Cause(err) != io.EOF {
 		env.R.Violate("no-clean-eof:"+c.Comp.Algo, fmt.Sprintf("after the last message: %v", err), c)
 	}
+	// (a') the same again into ONE message value, the way the patcher and the bsdiff reader reuse theirs: what a
+	// read delivers may not depend on what the value held before
+	if rc1, err := c13Open(stream); err == nil {
+		reused := &pwr.SyncOp{}
+		for i := range msgs {
+			if err := rc1.ReadMessage(reused); err != nil {
+				env.R.Violate("read-error:"+c.Comp.Algo, fmt.Sprintf("message %d into a reused value: %v", i, err), c)
+				break
+			}
+			if !sameMsg(reused, msgs[i]) {
+				env.R.Violate("message-altered:reused-value:"+c.Comp.Algo, fmt.Sprintf("message %d read into a reused value differs after the round trip", i), c)
+				break
+			}
+		}
+		env.R.Count("reads-into-reused-value", int64(len(msgs)))
+	}
 	// model: frame offsets
 	offs, merr := m.Ask("c13 " + strings.Join(lens, ","))
 	var modelOff []int64
